@@ -117,7 +117,7 @@ def run(ck):
     for k in range(ck.n(50, 500)):
         K = int(rng.integers(2, 6)); n = int(rng.integers(K, 14))
         y = rng.integers(0, K, size=n); y[:K] = np.arange(K); rng.shuffle(y)
-        kind = ['random', 'perfect', 'constant', 'adversarial', 'ties', 'saturated'][k % 6]
+        kind = ['random', 'perfect', 'constant', 'adversarial', 'ties', 'saturated', 'confident'][k % 7]
         if kind == 'random':
             R = rng.random((n, K)) + 0.05
         elif kind == 'perfect':
@@ -128,6 +128,12 @@ def run(ck):
             R = np.full((n, K), 1e-3); R[np.arange(n), (y + 1) % K] = 1.0
         elif kind == 'ties':
             R = np.round(rng.random((n, K)) * 2) + 0.5          # many equal scores
+        elif kind == 'confident':
+            # confident and (almost) correct, but not one-hot: 1 - eps on the true class, one row in every few wrong; the true Brier score is of order eps^2
+            eps_c = [1e-2, 1e-3, 1e-4][(k // 7) % 3]
+            R = np.full((n, K), eps_c / (K - 1)); R[np.arange(n), y] = 1.0 - eps_c
+            if (k // 21) % 2:
+                R[0] = np.full(K, 0.3 / (K - 1)); R[0, (y[0] + 1) % K] = 0.7
         else:
             R = np.round(rng.random((n, K)), 1) * 0.999 + 1e-3
         P = (R / R.sum(1, keepdims=True)).astype(np.float32)
@@ -143,6 +149,11 @@ def run(ck):
             ck.case(dict(metric=name, kind=kind, y=y.tolist(), P=P.tolist(), value=v), nontrivial=kind not in ('perfect',), sample=(k == 4 and name == 'auc'))
             ck.count(f'{name}:{kind}')
             tol = 3e-6 * (1 + abs(want)) if name != 'logloss' else 2e-5 * (1 + abs(want))
+            if name == 'brier':
+                tol = 5e-6 * abs(want) + 1e-13         # a mean of squares of exactly representable residuals: every partial result carries a RELATIVE rounding error only
+            if name in ('brier', 'logloss') and v < 0:
+                ck.violation(f'{name} is negative: {v} (textbook value {want}; kind {kind}, K={K})', dict(metric=name, y=y.tolist(), P=P.tolist(), got=v, want=want),
+                             key=json.dumps(dict(site='negative', metric=name)))
             if abs(v - want) > tol:
                 ck.violation(f'{name} returned {v}, textbook value {want} (kind {kind}, K={K})', dict(metric=name, y=y.tolist(), P=P.tolist(), got=v, want=want),
                              key=json.dumps(dict(site='value', metric=name, kind=kind)))
@@ -157,7 +168,8 @@ def run(ck):
                     v2 = float(Metric.from_name(name).compute(y_true_class=torch.from_numpy(ybuf), y_pred_proba=pt))
                     want2 = float(orc(y2, P))
                     ck.count(f'{name}: refilled label buffer')
-                    if abs(v2 - want2) > tol:
+                    tol2 = (5e-6 * abs(want2) + 1e-13) if name == 'brier' else (3e-6 * (1 + abs(want2)) if name != 'logloss' else 2e-5 * (1 + abs(want2)))
+                    if abs(v2 - want2) > tol2:
                         ck.violation(f'{name} returned {v2} on labels written into a reused buffer, textbook value {want2} (the previous evaluation used other labels at the same address; kind {kind}, K={K})',
                                      dict(metric=name, y_first=y.tolist(), y=y2.tolist(), P=P.tolist(), got=v2, want=want2), key=json.dumps(dict(site='value-reused-buffer', metric=name)))
                 except Exception as e:
@@ -165,6 +177,14 @@ def run(ck):
             # perfect predictions score at least as well, in the declared direction, as these predictions
             R2 = np.full((n, K), 1e-6, dtype=np.float32); R2[np.arange(n), y] = 1.0 - (K - 1) * 1e-6
             vp = float(Metric.from_name(name).compute(y_true_class=yt, y_pred_proba=torch.tensor(R2)))
+            # predictions IDENTICAL to the targets (exact one-hot rows; log-loss excepted: entries below 1e-6 are outside its domain) score at least as well as both
+            if name != 'logloss':
+                vt = float(Metric.from_name(name).compute(y_true_class=yt, y_pred_proba=torch.tensor(np.eye(K, dtype=np.float32)[y])))
+                for other, vo in (('these predictions', v), ('near-perfect predictions (1e-6 off one-hot)', vp)):
+                    if (flags[name] and vt < vo) or (not flags[name] and vt > vo):
+                        ck.violation(f'{name}: predictions identical to the targets score {vt}, {other} score {vo}: they are ranked BETTER than the targets themselves '
+                                     f'(direction flag {flags[name]})', dict(metric=name, y=y.tolist(), P=P.tolist(), identical=vt, other=vo),
+                                     key=json.dumps(dict(site='direction-identical', metric=name)))
             if (flags[name] and vp < v - 1e-9) or (not flags[name] and vp > v + 1e-9):
                 ck.violation(f'{name}: perfect predictions score {vp}, these predictions score {v}: direction flag {flags[name]} is not truthful',
                              dict(metric=name, y=y.tolist(), P=P.tolist()), key=json.dumps(dict(site='direction', metric=name)))
